@@ -50,7 +50,7 @@ func exhSpaces() []exhSpace {
 		sp = append(sp, exhSpace{pools.EpochFactory("10.9.8.4/30", 2, "exh"), alphabet(pools.OpAlloc, pools.OpRenew, pools.OpRelease, pools.OpAdvance)})
 	}
 	for _, c := range []string{"2001:db8::4/126", "2001:db8::8/125"} {
-		sp = append(sp, exhSpace{pools.V6AddrFactory(c, "exh"), ar})
+		sp = append(sp, exhSpace{pools.V6AddrFactory(c, "exh"), alphabet(pools.OpAlloc, pools.OpRelease, pools.OpDecline)})
 	}
 	sp = append(sp, exhSpace{pools.V6PrefixFactory("2001:db8:0:4::/62", 64, "exh"), ar})
 	sp = append(sp, exhSpace{pools.V6PrefixFactory("2001:db8:0:8::/61", 64, "exh"), ar})
